@@ -263,7 +263,16 @@ def receiverOf : Op → Option String
   | .mset m _ _ => some m
   | .tset t _ _ => some t
   | .s1 _ s (.remove _) => some s
+  | .hadd h _ => some h
+  | .hrem h _ => some h
+  | .hclear h => some h
   | _ => none
+
+/-- SimpleHTTP bookkeeping replaces the instance's own list persistently: NOTHING else may change, not even
+    the caller's slice the instance was built from or another instance built from the same slice -/
+def strictMutator : Op → Bool
+  | .hadd .. => true | .hrem .. => true | .hclear .. => true
+  | _ => false
 
 def dstOf : Op → Option String
   | .arr d .. => some d | .sub d .. => some d | .sfrom d _ => some d | .toArr d _ => some d | .s1 d .. => some d
@@ -286,6 +295,9 @@ def expectMut (d : List (String × SV)) : Op → Option SV
   | .s1 _ s (.remove i) => match get d s with
     | some (.list l _) => some (.list (Spec.removeAt l i) [])
     | _ => none
+  | .hadd h ids => (listOf d h).map (fun l => .list (l ++ ids) [])
+  | .hrem h ids => (listOf d h).map (fun l => .list (Spec.minus l ids) [])
+  | .hclear _ => some (.list [] [])
   | _ => none
 
 /-- check one step; `none` = fine -/
@@ -302,7 +314,7 @@ def checkStep (iface : Bool) (op : Op) (edges : List (String × String × Bool))
     -- `Set` writes a map object: only handles that may BE the receiver may change with it
     let mapMut := match op with | .mset .. => true | .tset .. => true | _ => false
     let es := (edges.filter (fun e => !mapMut || e.2.2)).map (fun e => (e.1, e.2.1))
-    let may := reach es (es.length + 1) [recv]
+    let may := if strictMutator op then [recv] else reach es (es.length + 1) [recv]
     match prev.find? (fun e => !may.contains e.1 && (get cur e.1) != some e.2) with
     | some e => some s!"{e.1} changed although it cannot share storage with the mutated {recv}"
     | none =>
